@@ -30,7 +30,7 @@
    Only statements, closed by [exact], with [Print Assumptions] beneath each. *)
 From Coq Require Import List NArith ZArith Bool Permutation.
 From Verif Require Import Base.Outcome Gen.Consts Wire.Item Generic.Types Generic.Enc Generic.Dec.
-From Verif Require Import C01.ComposeFloat C01.ComposeSimple C01.ComposeMsgpack C01.ComposeCbor C01.ComposeBinc.
+From Verif Require Import C01.ComposeFloat C01.ComposeSimple C01.ComposeMsgpack C01.ComposeCbor C01.ComposeCborTime C01.ComposeBinc.
 From Verif Require Wire.Simple Wire.Msgpack Wire.Cbor C10.CborConv Wire.Binc Wire.BincProofs.
 Import ListNotations.
 
@@ -109,11 +109,12 @@ Theorem C01_cbor_wire_ok : forall (Oc : Cbor.eopts) (D : Cbor.dopts),
 Proof. exact (fun Oc D => conj (W_cbor_ok Oc D) (W_cbor_losses Oc D)). Qed.
 Print Assumptions C01_cbor_wire_ok.
 
-(* cbor, PARTIAL: every option vector (IndefiniteLength, TimeRFC3339, StringToRaw, OptimumSize; decode side
-   SignedInteger, RawToString, SkipUnexpectedTags), every value WITHOUT A NON-ZERO time.Time.
-   Missing: non-zero times.  Wire/Cbor's byte-level lemma (Wcbor_dec_enc_partial) does not cover tags 0 / 1
-   ([lib_supports] excludes tags 0..5): what it lacks is the float / calendar arithmetic
-   time_of_float (f64_add ..) and parse_rfc3339 (fmt_rfc3339 ..) returning the microsecond-rounded instant.
+(* cbor, the tag-1 form of times (TimeRFC3339 = false; the statement itself holds for every option vector),
+   PARTIAL: every value WITHOUT A NON-ZERO time.Time.  Under TimeRFC3339 = true non-zero times ARE covered:
+   C01_cbor_rfc3339_roundtrip below.
+   Missing here: non-zero times written as tag 1 (epoch seconds, integer or float64).  Wire/Cbor's byte-level
+   lemma for this vocabulary (Wcbor_dec_enc_partial) does not cover tag 1 ([lib_supports] excludes tags 0..5):
+   what it lacks is the float arithmetic time_of_float (f64_add ..) returning the microsecond-rounded instant.
    [leaves_ok] therefore admits only the zero time (written as nil, read back as the zero time); the time
    clause of [wire_ok] is met for that instant only, and [round_us] in cbor_losses is exercised only there.
    Premises: the wire lemma's own (Item.wf: ranges; plain: lengths are 64-bit; lib_supports of the
@@ -134,6 +135,37 @@ Theorem C01_cbor_roundtrip_bytes_partial :
   veq (normL cbor_losses O (arrange O pi v)) (normL cbor_losses O v).
 Proof. exact cbor_compose_partial. Qed.
 Print Assumptions C01_cbor_roundtrip_bytes_partial.
+
+(* cbor with CborHandle.TimeRFC3339 = true: times included.  The driver record [W_cbor_t] spells the
+   normalisation of a time out (nil for the zero time, else the instant rounded to the microsecond), so its
+   losses are cbor_losses for every instant. *)
+Theorem C01_cbor_rfc3339_wire_ok : forall (Oc : Cbor.eopts) (D : Cbor.dopts),
+  wire_ok (W_cbor_t Oc D) /\ same_losses (losses_of (W_cbor_t Oc D)) cbor_losses.
+Proof. exact (fun Oc D => conj (W_cbor_t_ok Oc D) (W_cbor_t_losses Oc D)). Qed.
+Print Assumptions C01_cbor_rfc3339_wire_ok.
+
+(* cbor, TimeRFC3339 = true, FULL (every other option free: IndefiniteLength, StringToRaw, OptimumSize;
+   SignedInteger, RawToString, SkipUnexpectedTags): a time.Time is written as tag 0 + the RFC 3339 text of
+   its UTC instant and comes back rounded to the microsecond (time as microseconds: cbor_losses), the zero
+   time as nil.  Premises: the extended wire lemma's own (Wcbor_dec_enc: wf, plain, lib_supports_t and
+   tdepth_t of the encoder's tree -- a tag-0 time costs no depth) plus leaves_ok: no float32 signalling NaN,
+   no unsigned >= 2^63 under SignedInteger, every time has nsec < 10^9 and a UTC year in 0..9999
+   ([CborTime.year_ok]: the range Go's RFC 3339 formatter accepts). *)
+Theorem C01_cbor_rfc3339_roundtrip :
+  forall (Oc : Cbor.eopts) (D : Cbor.dopts) (O : gopts) (pi : order) (t : ty) (v : gv) (rest : list N),
+  Cbor.eo_rfc3339 Oc = true ->
+  order_ok pi -> wt t v = true -> supported t = true ->
+  wf (to_item O pi v) -> CborConv.plain (to_item O pi v) ->
+  CborConv.lib_supports_t D (CborConv.tree_of Oc (to_item O pi v)) ->
+  (CborConv.tdepth_t D (CborConv.tree_of Oc (to_item O pi v)) < Cbor.maxdepth D)%Z ->
+  leaves_ok (W_cbor_t Oc D) (to_item O pi v) = true ->
+  (Z.of_nat (depth (to_item O pi v)) < maxdepth O)%Z ->
+  Cbor.dec_naked D (Cbor.fuel_for (Cbor.enc Oc (to_item O pi v) ++ rest)) (Cbor.enc Oc (to_item O pi v) ++ rest)
+    = Ok (wn (W_cbor_t Oc D) (to_item O pi v), rest) /\
+  of_item (W_cbor_t Oc D) O 0 t (wn (W_cbor_t Oc D) (to_item O pi v)) = Ok (normL cbor_losses O (arrange O pi v)) /\
+  veq (normL cbor_losses O (arrange O pi v)) (normL cbor_losses O v).
+Proof. exact cbor_rfc3339_compose. Qed.
+Print Assumptions C01_cbor_rfc3339_roundtrip.
 
 (* ---------------- binc ---------------- *)
 
@@ -291,5 +323,38 @@ Example C01_binc_nonvacuous :
     = Ok (GList (Some [GF32 0%N; GF32 2143289344%N])).
 Proof.
   cbv zeta. split; [reflexivity|]. split; [exact BincProofs.R_init|].
+  repeat apply conj; vm_compute; reflexivity.
+Qed.
+
+(* cbor with TimeRFC3339: times at top level, behind pointers, as map values; rounding up and down, the
+   zero time, the last second of year 9999 *)
+Definition ct_ty : ty := TStruct [([116]%N, TTime); ([108]%N, TSlice (TPtr TTime)); ([109]%N, TMap TString TTime)].
+Definition ct_val : gv :=
+  GStruct [([116]%N, GTime 1700000000%Z 123456789%N);
+           ([108]%N, GList (Some [GPtr (Some (GTime time_zero_sec 0%N)); GPtr (Some (GTime (-5)%Z 999999500%N)); GPtr None]));
+           ([109]%N, GMap (Some [(GStr [97]%N, GTime 253402300799%Z 999999499%N)]))].
+
+Example C01_cbor_rfc3339_nonvacuous :
+  let Oc := Cbor.mkeo false true false true in             (* TimeRFC3339, OptimumSize *)
+  let D := Cbor.mkdo false false false 0 in
+  let i := to_item cx_O1 cx_pi ct_val in
+  Cbor.eo_rfc3339 Oc = true /\ wt ct_ty ct_val = true /\ supported ct_ty = true /\
+  wf i /\ CborConv.plain i /\ CborConv.lib_supports_t D (CborConv.tree_of Oc i) /\
+  (CborConv.tdepth_t D (CborConv.tree_of Oc i) < Cbor.maxdepth D)%Z /\
+  leaves_ok (W_cbor_t Oc D) i = true /\
+  (do ir <- Cbor.dec_naked D 1000 (Cbor.enc Oc i ++ [7]%N);;
+   of_item (W_cbor_t Oc D) cx_O1 0 ct_ty (fst ir)) = Ok (normL cbor_losses cx_O1 (arrange cx_O1 cx_pi ct_val)) /\
+  normL cbor_losses cx_O1 ct_val =
+    GStruct [([116]%N, GTime 1700000000%Z 123457000%N);
+             ([108]%N, GList (Some [GPtr None; GPtr (Some (GTime (-4)%Z 0%N)); GPtr None]));
+             ([109]%N, GMap (Some [(GStr [97]%N, GTime 253402300799%Z 999999000%N)]))] /\
+  (* year 10000 is outside the leaf premise *)
+  leaves_ok (W_cbor_t Oc D) (ITime 253402300800%Z 0%N) = false.
+Proof.
+  cbv zeta.
+  split; [reflexivity|]. split; [vm_compute; reflexivity|]. split; [vm_compute; reflexivity|].
+  split; [vm_compute; repeat first [reflexivity | exact I | (intro; discriminate) | apply conj | constructor]|].
+  split; [vm_compute; repeat first [reflexivity | exact I | (intro; discriminate) | apply conj]|].
+  split; [vm_compute; repeat first [reflexivity | exact I | (intro; discriminate) | apply conj | right | eexists]|].
   repeat apply conj; vm_compute; reflexivity.
 Qed.
